@@ -180,7 +180,8 @@ func legacyMarkerLines(src []byte) map[int]bool {
 
 		// The comment must be the first thing on its line: a line that starts inside a block
 		// comment or raw string may be followed by a trailing comment on the same line.
-		p := fset.Position(pos)
+		// (the position as written in the file: //line directives must not adjust it)
+		p := fset.PositionFor(pos, false)
 		if strings.TrimLeft(string(src[p.Offset-(p.Column-1):p.Offset]), " \t") == "" {
 			lines[p.Line] = true
 		}
